@@ -322,6 +322,14 @@ func srvAlphabet(cfg *SrvCfg, full bool) []CSym {
 	wid := ses("negotiating", "other")
 	wid.Comp, wid.Enc = "none", "none"
 	a = append(a, wid)
+	// a valid choice addressed to something other than the server's full node (its identity alone, or somebody else)
+	for _, to := range []*NodeSpec{{Name: "postmaster", Domain: "srv.example"}, {Name: "mallory", Domain: "elsewhere.example", Instance: "x"}} {
+		s := ses("negotiating", "sid")
+		s.Comp, s.Enc, s.To = "none", "none", to
+		a = append(a, s)
+		s.Enc, s.DoTLS = "tls", true
+		a = append(a, s)
+	}
 	for si, sch := range cfg.Schemes {
 		creds := []string{"c1", "c2"}
 		if si == 0 && full {
